@@ -249,7 +249,7 @@ CHECK_DEADLOCK FALSE
                 evs.append(run_reads(base, stream, plan, pieces))
                 if len(pieces) > 1 and rnd.random() < 0.15:
                     k = rnd.randrange(0, len(pieces) + 1)
-                    evs.append(run_reads(base, stream, plan, pieces[:k] + ["EINTR"] + pieces[k:]))
+                    evs.append(run_reads(base, stream, plan, pieces[:k] + ["EINTR"] * rnd.choice([1, 2, 3]) + pieces[k:]))
     rep.set("reader_executions", len(evs))
 
     # ---- (C) public calls under segmentations
@@ -312,7 +312,7 @@ CHECK_DEADLOCK FALSE
             variants = [pieces]
             if len(pieces) > 1 and (nseg % 7 == 0):
                 k = rnd.randrange(1, len(pieces))
-                variants.append(pieces[:k] + ["EINTR"] + pieces[k:])
+                variants.append(pieces[:k] + ["EINTR"] * (1 + nseg % 3) + pieces[k:])
             for pv in variants:
                 got = run(pv)
                 nseg += 1
